@@ -12,12 +12,18 @@ The sequence-level and aliasing-level reading of C04, for all lists, values, ind
    cell, with every error case.
 3. **Reference identity**: what is seen through a variable (`seenThrough`), mutation through one alias is
    seen through every alias, parameters / list elements hold the same address, and the assignment frame
-   (`assign_no_action_at_a_distance`, `assign_first_binding_shares`, `assign_existing_list_copies`).
-4. Non-vacuity: every headline theorem instantiated on a concrete heap, and the boundary indices.
+   (`assign_trichotomy`, `assign_no_action_at_a_distance`, `assign_deep_frame`, `assign_first_binding_shares`,
+   `assign_existing_list_copies`).
+4. **Index validity in arithmetic terms** (`validIndex_eq_specIndex`): for every `Float` and every length up to
+   `2^52`, the interpreter's index computation (`x ≥ 1.0`, `(x - 1.0) as usize`, bounds check) is the property's
+   sentence "the integer part `k` of `x` satisfies `1 ≤ k ≤ LENGTH`; position `k`"; INSERT / REMOVE use the same
+   positions. Proved from Lean's logical model of `Float` in `Proofs/FloatIndex.lean`.
+5. Non-vacuity: the boundary indices and every headline theorem instantiated on a concrete heap, and whole
+   programs through lexer, parser and evaluator.
 
-The float side of index validity (`x ≥ 1`, position `⌊x⌋ - 1`) is stated through the model's cast primitive
-`F64.toUSize` (= `Float.toUInt64`, Rust's saturating `as usize`); its arithmetic reading for every `Float`
-is proved in `Proofs/FloatIndex.lean` and restated at the end of this file.
+Sections 1–3 are stated through the model's own index computation (`natIndex`, i.e. the cast primitive
+`F64.toUSize` = `Float.toUInt64`, Rust's saturating `as usize`) and hold without any bound; section 4 gives its
+arithmetic meaning.
 -/
 namespace Aplang
 
@@ -769,6 +775,24 @@ theorem assign_no_action_at_a_distance (x : Str) (v r : Value) (σ σ' : St) (h 
     | list b => simp only [key.2 b hly]
     | null | num _ | bool _ | str _ | obj _ => rfl
 
+/-- **the frame property for nested contents**: the full rendering of any value `w` (every nested list followed
+to the end) is unchanged by `x <- v` unless the cell `x` is bound to is reachable from `w` — i.e. unless some
+element path of `w` ends in an alias of `x`. (For such a `w` the change is the specified one: that element
+*is* `x`'s list, see `assign_existing_list_copies`.) -/
+theorem assign_deep_frame (x : Str) (v r : Value) (σ σ' : St) (h : assignVar x v σ = .ok (r, σ')) (w : Value)
+    (hw : ∀ tgt, lookupVar σ x = some (.list tgt) → ¬ Reach σ.heap w tgt) (d : Nat) :
+    displayV σ'.heap d w = displayV σ.heap d w ∧ display σ' w = display σ w := by
+  have key : σ'.heap.length = σ.heap.length ∧ ∀ b, Reach σ.heap w b → σ'.heap[b]? = σ.heap[b]? := by
+    obtain ⟨_, hc | hc | hc⟩ := assign_trichotomy x v r σ σ' h
+    · exact ⟨by rw [hc.2.1], fun b _ => by rw [hc.2.1]⟩
+    · obtain ⟨src, tgt, vs, _, hx, _, _, rfl⟩ := hc
+      refine ⟨heap_length_setCell σ tgt _, fun b hb => setCell_frame σ tgt b _ ?_⟩
+      rintro rfl; exact hw b hx hb
+    · obtain ⟨_, _, _, rfl⟩ := hc
+      exact ⟨rfl, fun _ _ => rfl⟩
+  refine ⟨(displayV_frame σ.heap σ'.heap d).1 w key.2, ?_⟩
+  simp only [display, key.1, (displayV_frame σ.heap σ'.heap (σ.heap.length + 1)).1 w key.2]
+
 /-- **`x <- y` never changes what is seen through `y`**: the cell of the assigned list value (the list `y`
 evaluates to) is never written by the assignment, whether `x` is rebound, receives a copy, or is `y` itself … -/
 theorem assign_source_cell_unchanged (x : Str) (src : Nat) (r : Value) (σ σ' : St)
@@ -872,7 +896,52 @@ theorem assign_total (x : Str) (v : Value) (σ : St) (hs : σ.scopes ≠ []) (hv
     · exact ⟨_, (assign_first_binding_shares x src σ fr rest hs (fun t ht => hx ⟨t, ht⟩)).1⟩
   · exact ⟨_, assign_nonlist_rebinds x v σ fr rest hs (fun s e => hl ⟨s, e⟩)⟩
 
-/-! ## 5. Index validity in arithmetic terms, for every float
+/-- the statement `x <- y` for a variable `y` is `assignVar` on the value `y` is bound to (for a list: its
+address) -/
+theorem expr_assign_var (cfg : Cfg) (f : Nat) (x y : Str) (t1 t2 t3 : Token) (σ : St) (v : Value)
+    (hy : lookupVar σ y = some v) :
+    expr cfg (f+2) (.assign x t1 (.var y t2) t3) σ = assignVar x v σ := by
+  rw [expr, expr_var cfg f y t2 σ v hy]; simp only [Res.bind_ok]
+
+theorem seenThrough_nonlist {σ : St} {y : Str} {v : Value} (hy : lookupVar σ y = some v) (hv : ∀ s, v ≠ .list s) :
+    seenThrough σ y = none := by
+  unfold seenThrough; rw [hy]
+  cases v with
+  | list s => exact absurd rfl (hv s)
+  | null | num _ | bool _ | str _ | obj _ => rfl
+
+/-- **the property's sentence, for the evaluator**: whenever the expression `x <- y` (with `y` a variable)
+evaluates, what is seen through `y` is what was seen through `y` before, and the same holds for every variable
+`z` that is not `x` and not an alias of `x` -/
+theorem assign_from_variable_frame (cfg : Cfg) (f : Nat) (x y : Str) (t1 t2 t3 : Token) (σ σ' : St) (r : Value)
+    (h : expr cfg (f+2) (.assign x t1 (.var y t2) t3) σ = .ok (r, σ')) :
+    seenThrough σ' y = seenThrough σ y ∧
+    ∀ z, z ≠ x → ¬ Alias σ x z → lookupVar σ' z = lookupVar σ z ∧ seenThrough σ' z = seenThrough σ z := by
+  cases hy : lookupVar σ y with
+  | none =>
+    rw [expr, expr] at h; simp only [hy] at h; cases h
+  | some v =>
+    rw [expr_assign_var cfg f x y t1 t2 t3 σ v hy] at h
+    refine ⟨?_, fun z hz hna => ⟨(assign_no_action_at_a_distance x v r σ σ' h z hz hna).1,
+      (assign_no_action_at_a_distance x v r σ σ' h z hz hna).2.2⟩⟩
+    by_cases hl : ∃ s, v = .list s
+    · obtain ⟨src, rfl⟩ := hl
+      by_cases hyx : y = x
+      · subst hyx
+        rw [assign_same_list_noop y src σ hy] at h
+        injection h with h; injection h with _ h2; rw [← h2]
+      · exact assign_source_unchanged x y src r σ σ' h hyx hy
+    · have hv : ∀ s, v ≠ .list s := fun s e => hl ⟨s, e⟩
+      have hl' : lookupVar σ' y = some v := by
+        obtain ⟨_, hc | hc | hc⟩ := assign_trichotomy x v r σ σ' h
+        · by_cases hyx : y = x
+          · subst hyx; exact define_lookup_self hc.1
+          · rw [define_lookup_ne hc.1 y hyx, hy]
+        · obtain ⟨s, _, _, e, _⟩ := hc; exact absurd e (hv s)
+        · obtain ⟨s, e, _⟩ := hc; exact absurd e (hv s)
+      rw [seenThrough_nonlist hl' hv, seenThrough_nonlist hy hv]
+
+/-! ## 4. Index validity in arithmetic terms, for every float
 
 `Proofs/FloatIndex.lean` derives from Lean's logical model of `Float` what the comparison `x ≥ 1.0`, the
 subtraction `x - 1.0` and the cast `as usize` compute. `F64.intPart x = some k` says: `x` is finite, not negative,
@@ -1035,7 +1104,32 @@ theorem remove_arith_valid (s1 s2 : Span) {k : Nat} (hk : F64.intPart x = some k
 
 end
 
-/-! ## 4. Non-vacuity: the boundary indices and every headline theorem on a concrete heap -/
+/-! ### LENGTH as an index -/
+
+/-- **LENGTH(l) is the number of elements, exactly**: the float it returns has integer part `vs.length` (every
+list below `2^53` elements; `Nat.toFloat` is exact there) -/
+theorem length_list_exact (env : CharEnv) (σ : St) {a : Nat} {vs : List Value} (hl : getList σ a = some vs)
+    (hn : vs.length < 2 ^ 53) (sp : List Span) :
+    ∃ y, callNative env .length [.list a] sp σ = .ok (.num y, σ) ∧ F64.intPart y = some vs.length :=
+  ⟨_, length_list env σ hl sp, F64.intPart_toFloat _ hn⟩
+
+theorem length_string_exact (env : CharEnv) (σ : St) (s : Str) (hn : s.length < 2 ^ 53) (sp : List Span) :
+    ∃ y, callNative env .length [.str s] sp σ = .ok (.num y, σ) ∧ F64.intPart y = some s.length :=
+  ⟨_, length_string env σ s sp, F64.intPart_toFloat _ hn⟩
+
+/-- the number `LENGTH` is the last valid index of a non-empty sequence -/
+theorem validIndex_length (n : Nat) (h1 : 1 ≤ n) (hn : n ≤ 2 ^ 52) : validIndex n n.toFloat = some (n - 1) := by
+  rw [validIndex_eq_specIndex n hn]
+  have : (2 : Nat) ^ 52 < 2 ^ 53 := by decide
+  exact (specIndex_eq_some_iff _ _ _).mpr ⟨n, F64.intPart_toFloat n (by omega), h1, Nat.le_refl n, rfl⟩
+
+/-- **`l[LENGTH(l)]` is the last element** -/
+theorem index_read_at_length (lt lb rb : Token) (σ : St) {a : Nat} {vs : List Value} (hl : getList σ a = some vs)
+    (h1 : 1 ≤ vs.length) (hn : vs.length ≤ 2 ^ 52) :
+    indexRead (.list a) (.num vs.length.toFloat) lt lb rb σ = .ok (vs[vs.length - 1]'(by omega), σ) :=
+  index_read_valid lt lb rb σ hl (validIndex_length vs.length h1 hn)
+
+/-! ## 5. Non-vacuity: the boundary indices and every headline theorem on a concrete heap -/
 
 namespace C04bDemo
 
@@ -1315,6 +1409,126 @@ example :
     (lookupVar (finalOr (Aplang.run cfg0 80 "a <- [5, 6, 7]\nx <- a[3.5]\n".toList {} [])) ['x']).map numOr = some 7 ∧
     endedOk (Aplang.run cfg0 80 "s <- \"abc\"\nx <- s[3]\n".toList {} []) = true := by decide +kernel
 
+/-! ### index validity in arithmetic terms -/
+
+/-- integer parts (kernel evaluation of the decoding): 3.5 ↦ 3, 0.5 ↦ 0, -0.0 ↦ 0, 1e30 ↦ the exact integer
+the nearest double is; none for -1, NaN, ±∞ -/
+example : F64.intPart 3.5 = some 3 ∧ F64.intPart 1 = some 1 ∧ F64.intPart 0.5 = some 0 ∧ F64.intPart (-0.0) = some 0 ∧
+    F64.intPart 0.9999999999999999 = some 0 ∧ F64.intPart 1e30 = some 1000000000000000019884624838656 ∧
+    F64.intPart (-1) = none ∧ F64.intPart (0.0 / 0.0) = none ∧ F64.intPart (1.0 / 0.0) = none ∧
+    F64.intPart (-1.0 / 0.0) = none := by decide +kernel
+example : F64.isPosInf (1.0 / 0.0) := by unfold F64.isPosInf; rfl
+example : specIndex 3 3.5 = some 2 ∧ specIndex 3 4 = none ∧ specIndex 3 0.5 = none ∧ specIndex 3 1 = some 0 := by
+  decide +kernel
+example : validIndex 3 3.5 = specIndex 3 3.5 := validIndex_eq_specIndex 3 (by decide) 3.5
+example : indexRead (.list 0) (.num 3.5) tk tk tk σ0 = .ok (.num 30, σ0) :=
+  index_read_arith_valid tk tk tk σ0 hl0 (by decide) (x := 3.5) (k := 3) (by decide +kernel) (by decide) (by decide)
+example : indexRead (.list 0) (.num 4) tk tk tk σ0 = .err ⟨"Invalid List Index", interior tk tk⟩ σ0 :=
+  index_read_arith_invalid tk tk tk σ0 hl0 (by decide) (x := 4) (by
+    intro k hk
+    have : F64.intPart 4 = some 4 := by decide +kernel
+    rw [this] at hk; cases hk; exact Or.inr (by decide))
+example : callNative env0 .remove [.list 0, .num 2.5] [(0,0), (0,0)] σ0 =
+    .ok (.num 20, setCell σ0 0 (.list [.num 10, .num 30])) :=
+  remove_arith_valid env0 σ0 hl0 (by decide) (x := 2.5) (k := 2) (0,0) (0,0) (by decide +kernel) (by decide) (by decide)
+example : callNative env0 .insert [.list 0, .num 4, .num 15] [(0,0), (0,0), (0,0)] σ0 =
+    .ok (.null, setCell σ0 0 (.list [.num 10, .num 20, .num 30, .num 15])) :=
+  insert_arith_valid env0 σ0 hl0 (by decide) (x := 4) (k := 4) (.num 15) (0,0) (0,0) (0,0) (by decide +kernel)
+    (by decide) (by decide)
+
+/-- `l[LENGTH(l)]` on the concrete list -/
+example : indexRead (.list 0) (.num (3 : Nat).toFloat) tk tk tk σ0 = .ok (.num 30, σ0) :=
+  index_read_at_length tk tk tk σ0 hl0 (by decide) (by decide)
+
+/-! ### deep frame -/
+
+/-- `z <- x` (copy into cell 1): the full rendering of `x`'s list (cell 0, from which cell 1 is not reachable) is
+unchanged at every depth -/
+example (d : Nat) : displayV (setCell σ0 1 (.list vs0)).heap d (.list 0) = displayV σ0.heap d (.list 0) :=
+  (assign_deep_frame ['z'] (.list 0) (.list 0) σ0 _
+    (assign_existing_list_copies ['z'] 0 1 vs0 [.num 7] σ0 hz0 (by decide) hl1 hl0).1 (.list 0)
+    (by
+      intro tgt ht hr
+      rw [hz0] at ht; cases ht
+      -- cell 1 is not reachable from cell 0 = [10, 20, 30]
+      cases hr with
+      | step a vs v b hc hv hb =>
+        have : vs = vs0 := by
+          have h0 : σ0.heap[0]? = some (.list vs0) := rfl
+          rw [h0] at hc; cases hc; rfl
+        subst this
+        simp only [vs0, List.mem_cons, List.not_mem_nil, or_false] at hv
+        rcases hv with rfl | rfl | rfl <;> cases hb) d).1
+
 end C04bDemo
+
+/-! ## axioms -/
+
+#print axioms validIndex_eq_some_iff
+#print axioms index_read_valid
+#print axioms index_read_invalid
+#print axioms index_read_never_other
+#print axioms index_read_string_valid
+#print axioms index_read_string_never_other
+#print axioms index_write_valid
+#print axioms index_write_invalid
+#print axioms index_write_never_other
+#print axioms index_write_read_same
+#print axioms index_write_read_other
+#print axioms append_spec
+#print axioms append_not_list
+#print axioms insert_valid
+#print axioms insert_invalid
+#print axioms insert_sequence
+#print axioms remove_valid
+#print axioms remove_invalid
+#print axioms remove_sequence
+#print axioms insert_then_remove
+#print axioms length_list
+#print axioms length_string
+#print axioms concat_spec
+#print axioms concat_state
+#print axioms update_seen_through_alias
+#print axioms update_not_seen_elsewhere
+#print axioms index_write_through_alias
+#print axioms append_through_alias
+#print axioms insert_through_alias
+#print axioms remove_through_alias
+#print axioms expr_call_user
+#print axioms param_shares_argument
+#print axioms param_sees_callers_list
+#print axioms expr_list_literal
+#print axioms stored_list_is_shared
+#print axioms element_read_shares
+#print axioms assign_trichotomy
+#print axioms assign_no_action_at_a_distance
+#print axioms assign_deep_frame
+#print axioms assign_source_cell_unchanged
+#print axioms assign_source_unchanged
+#print axioms assign_first_binding_shares
+#print axioms assign_existing_list_copies
+#print axioms assign_same_list_noop
+#print axioms assign_total
+#print axioms assign_from_variable_frame
+#print axioms F64.ge_one_iff
+#print axioms F64.toUSize_eq
+#print axioms natIndex_eq_small
+#print axioms natIndex_big
+#print axioms natIndex_inf
+#print axioms validIndex_eq_specIndex
+#print axioms removePos_eq_specIndex
+#print axioms insertPos_eq_specIndex
+#print axioms F64.intPart_toFloat
+#print axioms length_list_exact
+#print axioms validIndex_length
+#print axioms index_read_at_length
+#print axioms index_read_arith_valid
+#print axioms index_read_arith_invalid
+#print axioms index_write_arith_valid
+#print axioms insert_arith_valid
+#print axioms remove_arith_valid
+#print axioms C04bDemo.validIndex_boundary
+#print axioms C04bDemo.insert_remove_boundary
+#print axioms index_computations_differ_beyond_2_53
 
 end Aplang
